@@ -706,6 +706,9 @@ package gtab
 //@   ensures next >= -1 && next <= len(ctx.seq) && stackinv(ctx) && len(ctx.seq) == old(len(ctx.seq))
 //@   ensures next < 0 ==> len(ctx.stack) == old(len(ctx.stack))
 //@   ensures next >= 0 ==> a < next && next <= b && len(ctx.stack) == old(len(ctx.stack)) + 1
+//@   ensures next >= 0 ==> ctx.stack[old(len(ctx.stack))].InputPos[0] == a && ctx.stack[old(len(ctx.stack))].EndPos == next
+//@   ensures next >= 0 ==> forall k int :: 0 <= k && k + 1 < len(ctx.stack[old(len(ctx.stack))].InputPos) ==> ctx.stack[old(len(ctx.stack))].InputPos[k] < ctx.stack[old(len(ctx.stack))].InputPos[k+1]
+//@   return_assert next >= 0 ==> len(matchPos) == len(rule.Input) + 1
 //@   opt assume_make=1
 //@   modifies ctx.scratch, ctx.stack, ctx.stack[*], ctx.scratch[*], all(nested), allelems(int), allelems(*nested)
 //@   loop 0
@@ -716,8 +719,9 @@ package gtab
 //@     invariant stackinv(ctx) && len(ctx.stack) == old(len(ctx.stack)) && len(ctx.seq) == old(len(ctx.seq)) && ref(seq) == ref(ctx.seq) && off(seq) == off(ctx.seq) && len(seq) == len(ctx.seq) && b <= len(seq) && ctx.scratch == old(ctx.scratch) && keep == ctx.keep
 //@     invariant ref(matchPos) == ref(ctx.scratch) || fresh(matchPos)
 //@     invariant forall k int :: 0 <= k && k < len(ctx.stack) ==> !fresh(ctx.stack[k].InputPos)
-//@     invariant a <= p && p < b && glyphsNeeded >= 0 && glyphsNeeded == len(rule.Input) - iter && len(matchPos) >= 1 && rule != nil
+//@     invariant a <= p && p < b && glyphsNeeded >= 0 && glyphsNeeded == len(rule.Input) - iter && len(matchPos) == iter + 1 && matchPos[0] == a && rule != nil
 //@     invariant forall k int :: 0 <= k && k < len(matchPos) ==> a <= matchPos[k] && matchPos[k] <= p
+//@     invariant (forall k2 int :: 0 <= k2 && k2 + 1 < len(matchPos) ==> matchPos[k2] < matchPos[k2+1])
 //@   loop 2
 //@     invariant a < p && p <= b && glyphsNeeded >= 0 && b <= len(seq) && len(seq) == len(ctx.seq) && ref(seq) == ref(ctx.seq) && off(seq) == off(ctx.seq) && len(ctx.seq) == old(len(ctx.seq)) && keep == ctx.keep
 //@     invariant forall k int :: 0 <= k && k < len(matchPos) ==> a <= matchPos[k] && matchPos[k] < p
@@ -725,6 +729,7 @@ package gtab
 //@   loop 3
 //@     invariant a < p && p <= b && b <= len(seq) && len(seq) == len(ctx.seq) && ref(seq) == ref(ctx.seq) && off(seq) == off(ctx.seq) && len(ctx.seq) == old(len(ctx.seq)) && keep == ctx.keep
 //@     invariant forall k int :: 0 <= k && k < len(matchPos) ==> a <= matchPos[k] && matchPos[k] < p
+//@     invariant (forall k2 int :: 0 <= k2 && k2 + 1 < len(matchPos) ==> matchPos[k2] < matchPos[k2+1]) && matchPos[0] == a && len(matchPos) == len(rule.Input) + 1
 //@     invariant len(matchPos) >= 1 && stackinv(ctx) && len(ctx.stack) == old(len(ctx.stack)) && (ref(matchPos) == ref(ctx.scratch) || fresh(matchPos)) && ctx.scratch == old(ctx.scratch) && rule != nil
 //@     invariant forall k int :: 0 <= k && k < len(ctx.stack) ==> !fresh(ctx.stack[k].InputPos)
 //@     decreases b - p
@@ -737,6 +742,9 @@ package gtab
 //@   ensures next >= -1 && next <= len(ctx.seq) && stackinv(ctx) && len(ctx.seq) == old(len(ctx.seq))
 //@   ensures next < 0 ==> len(ctx.stack) == old(len(ctx.stack))
 //@   ensures next >= 0 ==> a < next && next <= b && len(ctx.stack) == old(len(ctx.stack)) + 1
+//@   ensures next >= 0 ==> ctx.stack[old(len(ctx.stack))].InputPos[0] == a && ctx.stack[old(len(ctx.stack))].EndPos == next
+//@   ensures next >= 0 ==> forall k int :: 0 <= k && k + 1 < len(ctx.stack[old(len(ctx.stack))].InputPos) ==> ctx.stack[old(len(ctx.stack))].InputPos[k] < ctx.stack[old(len(ctx.stack))].InputPos[k+1]
+//@   return_assert next >= 0 ==> len(matchPos) == len(rule.Input) + 1
 //@   opt assume_make=1
 //@   modifies ctx.scratch, ctx.stack, ctx.stack[*], ctx.scratch[*], all(nested), allelems(int), allelems(*nested)
 //@   loop 0
@@ -747,8 +755,9 @@ package gtab
 //@     invariant stackinv(ctx) && len(ctx.stack) == old(len(ctx.stack)) && len(ctx.seq) == old(len(ctx.seq)) && ref(seq) == ref(ctx.seq) && off(seq) == off(ctx.seq) && len(seq) == len(ctx.seq) && b <= len(seq) && ctx.scratch == old(ctx.scratch) && keep == ctx.keep
 //@     invariant ref(matchPos) == ref(ctx.scratch) || fresh(matchPos)
 //@     invariant forall k int :: 0 <= k && k < len(ctx.stack) ==> !fresh(ctx.stack[k].InputPos)
-//@     invariant a <= p && p < b && glyphsNeeded >= 0 && glyphsNeeded == len(rule.Input) - iter && len(matchPos) >= 1 && rule != nil
+//@     invariant a <= p && p < b && glyphsNeeded >= 0 && glyphsNeeded == len(rule.Input) - iter && len(matchPos) == iter + 1 && matchPos[0] == a && rule != nil
 //@     invariant forall k int :: 0 <= k && k < len(matchPos) ==> a <= matchPos[k] && matchPos[k] <= p
+//@     invariant (forall k2 int :: 0 <= k2 && k2 + 1 < len(matchPos) ==> matchPos[k2] < matchPos[k2+1])
 //@   loop 2
 //@     invariant a < p && p <= b && glyphsNeeded >= 0 && b <= len(seq) && len(seq) == len(ctx.seq) && ref(seq) == ref(ctx.seq) && off(seq) == off(ctx.seq) && len(ctx.seq) == old(len(ctx.seq)) && keep == ctx.keep
 //@     invariant forall k int :: 0 <= k && k < len(matchPos) ==> a <= matchPos[k] && matchPos[k] < p
@@ -756,6 +765,7 @@ package gtab
 //@   loop 3
 //@     invariant a < p && p <= b && b <= len(seq) && len(seq) == len(ctx.seq) && ref(seq) == ref(ctx.seq) && off(seq) == off(ctx.seq) && len(ctx.seq) == old(len(ctx.seq)) && keep == ctx.keep
 //@     invariant forall k int :: 0 <= k && k < len(matchPos) ==> a <= matchPos[k] && matchPos[k] < p
+//@     invariant (forall k2 int :: 0 <= k2 && k2 + 1 < len(matchPos) ==> matchPos[k2] < matchPos[k2+1]) && matchPos[0] == a && len(matchPos) == len(rule.Input) + 1
 //@     invariant len(matchPos) >= 1 && stackinv(ctx) && len(ctx.stack) == old(len(ctx.stack)) && (ref(matchPos) == ref(ctx.scratch) || fresh(matchPos)) && ctx.scratch == old(ctx.scratch) && rule != nil
 //@     invariant forall k int :: 0 <= k && k < len(ctx.stack) ==> !fresh(ctx.stack[k].InputPos)
 //@     decreases b - p
@@ -767,14 +777,17 @@ package gtab
 //@   ensures next >= -1 && next <= len(ctx.seq) && stackinv(ctx) && len(ctx.seq) == old(len(ctx.seq))
 //@   ensures next < 0 ==> len(ctx.stack) == old(len(ctx.stack))
 //@   ensures next >= 0 ==> a < next && next <= b && len(ctx.stack) == old(len(ctx.stack)) + 1
+//@   ensures next >= 0 ==> len(ctx.stack[old(len(ctx.stack))].InputPos) == len(l.Input) && ctx.stack[old(len(ctx.stack))].InputPos[0] == a && ctx.stack[old(len(ctx.stack))].EndPos == next
+//@   ensures next >= 0 ==> forall k int :: 0 <= k && k + 1 < len(l.Input) ==> ctx.stack[old(len(ctx.stack))].InputPos[k] < ctx.stack[old(len(ctx.stack))].InputPos[k+1]
 //@   opt assume_make=1
 //@   modifies ctx.scratch, ctx.stack, ctx.stack[*], ctx.scratch[*], all(nested), allelems(int), allelems(*nested)
 //@   loop 0
 //@     invariant stackinv(ctx) && len(ctx.stack) == old(len(ctx.stack)) && len(ctx.seq) == old(len(ctx.seq)) && ref(seq) == ref(ctx.seq) && off(seq) == off(ctx.seq) && len(seq) == len(ctx.seq) && b <= len(seq) && ctx.scratch == old(ctx.scratch) && keep == ctx.keep
 //@     invariant ref(matchPos) == ref(ctx.scratch) || fresh(matchPos)
 //@     invariant forall k int :: 0 <= k && k < len(ctx.stack) ==> !fresh(ctx.stack[k].InputPos)
-//@     invariant a <= p && p < b && glyphsNeeded >= 0 && glyphsNeeded == len(l.Input) - 1 - iter && len(matchPos) >= 1
+//@     invariant a <= p && p < b && glyphsNeeded >= 0 && glyphsNeeded == len(l.Input) - 1 - iter && len(matchPos) == iter + 1 && matchPos[0] == a
 //@     invariant forall k int :: 0 <= k && k < len(matchPos) ==> a <= matchPos[k] && matchPos[k] <= p
+//@     invariant (forall k2 int :: 0 <= k2 && k2 + 1 < len(matchPos) ==> matchPos[k2] < matchPos[k2+1])
 //@   loop 1
 //@     invariant a < p && p <= b && glyphsNeeded >= 0 && b <= len(seq) && len(seq) == len(ctx.seq) && ref(seq) == ref(ctx.seq) && off(seq) == off(ctx.seq) && len(ctx.seq) == old(len(ctx.seq)) && keep == ctx.keep
 //@     invariant forall k int :: 0 <= k && k < len(matchPos) ==> a <= matchPos[k] && matchPos[k] < p
@@ -782,6 +795,7 @@ package gtab
 //@   loop 2
 //@     invariant a < p && p <= b && b <= len(seq) && len(seq) == len(ctx.seq) && ref(seq) == ref(ctx.seq) && off(seq) == off(ctx.seq) && len(ctx.seq) == old(len(ctx.seq)) && keep == ctx.keep
 //@     invariant forall k int :: 0 <= k && k < len(matchPos) ==> a <= matchPos[k] && matchPos[k] < p
+//@     invariant (forall k2 int :: 0 <= k2 && k2 + 1 < len(matchPos) ==> matchPos[k2] < matchPos[k2+1]) && matchPos[0] == a && len(matchPos) == len(l.Input)
 //@     invariant len(matchPos) >= 1 && stackinv(ctx) && len(ctx.stack) == old(len(ctx.stack)) && (ref(matchPos) == ref(ctx.scratch) || fresh(matchPos)) && ctx.scratch == old(ctx.scratch)
 //@     invariant forall k int :: 0 <= k && k < len(ctx.stack) ==> !fresh(ctx.stack[k].InputPos)
 //@     decreases b - p
@@ -795,6 +809,9 @@ package gtab
 //@   ensures next >= -1 && next <= len(ctx.seq) && stackinv(ctx) && len(ctx.seq) == old(len(ctx.seq))
 //@   ensures next < 0 ==> len(ctx.stack) == old(len(ctx.stack))
 //@   ensures next >= 0 ==> a < next && next <= b && len(ctx.stack) == old(len(ctx.stack)) + 1
+//@   ensures next >= 0 ==> ctx.stack[old(len(ctx.stack))].InputPos[0] == a && ctx.stack[old(len(ctx.stack))].EndPos == next
+//@   ensures next >= 0 ==> forall k int :: 0 <= k && k + 1 < len(ctx.stack[old(len(ctx.stack))].InputPos) ==> ctx.stack[old(len(ctx.stack))].InputPos[k] < ctx.stack[old(len(ctx.stack))].InputPos[k+1]
+//@   return_assert next >= 0 ==> len(matchPos) == len(rule.Input) + 1
 //@   opt assume_make=1
 //@   modifies ctx.scratch, ctx.stack, ctx.stack[*], ctx.scratch[*], all(nested), allelems(int), allelems(*nested)
 //@   let C = stackinv(ctx) && len(ctx.stack) == old(len(ctx.stack)) && len(ctx.seq) == old(len(ctx.seq)) && ref(seq) == ref(ctx.seq) && off(seq) == off(ctx.seq) && len(seq) == len(ctx.seq) && b <= len(seq) && ctx.scratch == old(ctx.scratch) && keep == ctx.keep
@@ -815,7 +832,7 @@ package gtab
 //@     invariant C && rule != nil
 //@     invariant ref(matchPos) == ref(ctx.scratch) || fresh(matchPos)
 //@     invariant forall k int :: 0 <= k && k < len(ctx.stack) ==> !fresh(ctx.stack[k].InputPos)
-//@     invariant a <= p && p < b && glyphsNeeded >= 0 && glyphsNeeded == len(rule.Input) - iter && len(matchPos) >= 1
+//@     invariant a <= p && p < b && glyphsNeeded >= 0 && glyphsNeeded == len(rule.Input) - iter && len(matchPos) == iter + 1 && matchPos[0] == a && (forall k2 int :: 0 <= k2 && k2 + 1 < len(matchPos) ==> matchPos[k2] < matchPos[k2+1])
 //@     invariant forall k int :: 0 <= k && k < len(matchPos) ==> a <= matchPos[k] && matchPos[k] <= p
 //@   loop 4
 //@     invariant L && a < p && p <= b && glyphsNeeded >= 0
@@ -825,7 +842,7 @@ package gtab
 //@     invariant C && rule != nil
 //@     invariant ref(matchPos) == ref(ctx.scratch) || fresh(matchPos)
 //@     invariant forall k int :: 0 <= k && k < len(ctx.stack) ==> !fresh(ctx.stack[k].InputPos)
-//@     invariant a <= next && next < b && next <= p && p < len(seq) && glyphsNeeded >= 0 && glyphsNeeded == len(rule.Lookahead) - iter && len(matchPos) >= 1
+//@     invariant a <= next && next < b && next <= p && p < len(seq) && glyphsNeeded >= 0 && glyphsNeeded == len(rule.Lookahead) - iter && len(matchPos) == len(rule.Input) + 1 && matchPos[0] == a && (forall k2 int :: 0 <= k2 && k2 + 1 < len(matchPos) ==> matchPos[k2] < matchPos[k2+1])
 //@     invariant forall k int :: 0 <= k && k < len(matchPos) ==> a <= matchPos[k] && matchPos[k] <= next
 //@   loop 6
 //@     invariant L && a <= next && next < b && next < p && p <= len(seq) && glyphsNeeded >= 0
@@ -833,6 +850,7 @@ package gtab
 //@   loop 7
 //@     invariant L && a < next && next <= b
 //@     invariant forall k int :: 0 <= k && k < len(matchPos) ==> a <= matchPos[k] && matchPos[k] < next
+//@     invariant (forall k2 int :: 0 <= k2 && k2 + 1 < len(matchPos) ==> matchPos[k2] < matchPos[k2+1]) && matchPos[0] == a && len(matchPos) == len(rule.Input) + 1
 //@     invariant len(matchPos) >= 1 && stackinv(ctx) && len(ctx.stack) == old(len(ctx.stack)) && (ref(matchPos) == ref(ctx.scratch) || fresh(matchPos)) && ctx.scratch == old(ctx.scratch) && rule != nil
 //@     invariant forall k int :: 0 <= k && k < len(ctx.stack) ==> !fresh(ctx.stack[k].InputPos)
 //@     decreases b - next
@@ -873,3 +891,56 @@ package gtab
 //@   loop 5
 //@     invariant L && a < next && next <= b && next < p && p <= len(seq) && glyphsNeeded >= 0
 //@     decreases len(seq) - p
+
+// Chained context, format 2 (class based); same structure as format 1.
+//@ func (l *ChainedSeqContext2) apply(ctx *Context, a int, b int) (next int)   props: C07 C06
+//@   requires l != nil && ctx != nil && 0 <= a && a < b && b <= len(ctx.seq) && stackinv(ctx) && keepOK(ctx) && llOK(ctx)
+//@   requires forall i int :: 0 <= i && i < len(l.Rules) ==> forall j int :: 0 <= j && j < len(l.Rules[i]) ==> l.Rules[i][j] != nil
+//@   ensures next >= -1 && next <= len(ctx.seq) && stackinv(ctx) && len(ctx.seq) == old(len(ctx.seq))
+//@   ensures next < 0 ==> len(ctx.stack) == old(len(ctx.stack))
+//@   ensures next >= 0 ==> a < next && next <= b && len(ctx.stack) == old(len(ctx.stack)) + 1
+//@   ensures next >= 0 ==> ctx.stack[old(len(ctx.stack))].InputPos[0] == a && ctx.stack[old(len(ctx.stack))].EndPos == next
+//@   ensures next >= 0 ==> forall k int :: 0 <= k && k + 1 < len(ctx.stack[old(len(ctx.stack))].InputPos) ==> ctx.stack[old(len(ctx.stack))].InputPos[k] < ctx.stack[old(len(ctx.stack))].InputPos[k+1]
+//@   return_assert next >= 0 ==> len(matchPos) == len(rule.Input) + 1
+//@   opt assume_make=1
+//@   modifies ctx.scratch, ctx.stack, ctx.stack[*], ctx.scratch[*], all(nested), allelems(int), allelems(*nested)
+//@   let C = stackinv(ctx) && len(ctx.stack) == old(len(ctx.stack)) && len(ctx.seq) == old(len(ctx.seq)) && ref(seq) == ref(ctx.seq) && off(seq) == off(ctx.seq) && len(seq) == len(ctx.seq) && b <= len(seq) && ctx.scratch == old(ctx.scratch) && keep == ctx.keep
+//@   let L = len(ctx.seq) == old(len(ctx.seq)) && ref(seq) == ref(ctx.seq) && off(seq) == off(ctx.seq) && len(seq) == len(ctx.seq) && b <= len(seq) && keep == ctx.keep
+//@   loop 0
+//@     invariant C
+//@     invariant isnil(matchPos) || ref(matchPos) == ref(ctx.scratch) || fresh(matchPos)
+//@     invariant forall k int :: 0 <= k && k < len(ctx.stack) ==> !fresh(ctx.stack[k].InputPos)
+//@   loop 1
+//@     invariant C && rule != nil
+//@     invariant isnil(matchPos) || ref(matchPos) == ref(ctx.scratch) || fresh(matchPos)
+//@     invariant forall k int :: 0 <= k && k < len(ctx.stack) ==> !fresh(ctx.stack[k].InputPos)
+//@     invariant 0 <= p && p <= a && glyphsNeeded >= 0 && glyphsNeeded == len(rule.Backtrack) - iter
+//@   loop 2
+//@     invariant L && -1 <= p && p < a && glyphsNeeded >= 0
+//@     decreases p + 1
+//@   loop 3
+//@     invariant C && rule != nil
+//@     invariant ref(matchPos) == ref(ctx.scratch) || fresh(matchPos)
+//@     invariant forall k int :: 0 <= k && k < len(ctx.stack) ==> !fresh(ctx.stack[k].InputPos)
+//@     invariant a <= p && p < b && glyphsNeeded >= 0 && glyphsNeeded == len(rule.Input) - iter && len(matchPos) == iter + 1 && matchPos[0] == a && (forall k2 int :: 0 <= k2 && k2 + 1 < len(matchPos) ==> matchPos[k2] < matchPos[k2+1])
+//@     invariant forall k int :: 0 <= k && k < len(matchPos) ==> a <= matchPos[k] && matchPos[k] <= p
+//@   loop 4
+//@     invariant L && a < p && p <= b && glyphsNeeded >= 0
+//@     invariant forall k int :: 0 <= k && k < len(matchPos) ==> a <= matchPos[k] && matchPos[k] < p
+//@     decreases b - p
+//@   loop 5
+//@     invariant C && rule != nil
+//@     invariant ref(matchPos) == ref(ctx.scratch) || fresh(matchPos)
+//@     invariant forall k int :: 0 <= k && k < len(ctx.stack) ==> !fresh(ctx.stack[k].InputPos)
+//@     invariant a <= next && next < b && next <= p && p < len(seq) && glyphsNeeded >= 0 && glyphsNeeded == len(rule.Lookahead) - iter && len(matchPos) == len(rule.Input) + 1 && matchPos[0] == a && (forall k2 int :: 0 <= k2 && k2 + 1 < len(matchPos) ==> matchPos[k2] < matchPos[k2+1])
+//@     invariant forall k int :: 0 <= k && k < len(matchPos) ==> a <= matchPos[k] && matchPos[k] <= next
+//@   loop 6
+//@     invariant L && a <= next && next < b && next < p && p <= len(seq) && glyphsNeeded >= 0
+//@     decreases len(seq) - p
+//@   loop 7
+//@     invariant L && a < next && next <= b
+//@     invariant forall k int :: 0 <= k && k < len(matchPos) ==> a <= matchPos[k] && matchPos[k] < next
+//@     invariant (forall k2 int :: 0 <= k2 && k2 + 1 < len(matchPos) ==> matchPos[k2] < matchPos[k2+1]) && matchPos[0] == a && len(matchPos) == len(rule.Input) + 1
+//@     invariant len(matchPos) >= 1 && stackinv(ctx) && len(ctx.stack) == old(len(ctx.stack)) && (ref(matchPos) == ref(ctx.scratch) || fresh(matchPos)) && ctx.scratch == old(ctx.scratch) && rule != nil
+//@     invariant forall k int :: 0 <= k && k < len(ctx.stack) ==> !fresh(ctx.stack[k].InputPos)
+//@     decreases b - next
